@@ -1115,7 +1115,8 @@ impl Dhcp {
     }
 
     pub fn get_broadcast_flag(&self) -> bool {
-        self.flags & 0b1000_0000 != 0
+        /* RFC2131 Figure 2: B is the most significant bit of the 16 bit flags field */
+        self.flags & 0x8000 != 0
     }
 }
 
